@@ -195,7 +195,7 @@ const (
 	//   0123456789abcdef0123456789abcdef
 	intMode = "" +
 		".........II..I.................." + // 0x00
-		"I.......II.a.a..aaaaaaaaaa......" + // 0x20
+		"I.......II.a.a.aaaaaaaaaaa......" + // 0x20
 		".aaaaaaaaaaaaaaaaaaaaaaaaaa....." + // 0x40
 		".aaaaaaaaaaaaaaaaaaaaaaaaaa......" + // 0x60
 		"................................" + // 0x80
@@ -1121,7 +1121,24 @@ func (r *reader) pushChar(src []byte) {
 func (r *reader) pushInteger(src []byte) {
 	token := string(r.makeToken(src))
 	var obj Object
-	if i, err := strconv.ParseInt(token, r.base, 64); err == nil {
+	if i := strings.IndexByte(token, '/'); 0 <= i {
+		// A ratio in the base of the prefix, #x1/2, as the printer writes it
+		// with *print-radix* on.
+		var num, den big.Int
+		_, ok := num.SetString(token[:i], r.base)
+		if ok {
+			_, ok = den.SetString(token[i+1:], r.base)
+		}
+		if !ok || den.Sign() <= 0 {
+			r.raise("%s is not a valid base %d ratio", token, r.base)
+		}
+		rat := new(big.Rat).SetFrac(&num, &den)
+		if rat.IsInt() {
+			obj = IntegerFromBig(new(big.Int).Set(rat.Num()))
+		} else {
+			obj = (*Ratio)(rat)
+		}
+	} else if i, err := strconv.ParseInt(token, r.base, 64); err == nil {
 		obj = Fixnum(i)
 	} else {
 		bi := big.NewInt(0)
